@@ -244,21 +244,32 @@ pub fn grammar(thorough: bool) -> Vec<Vec<u8>> {
 
 /// `prior`: a torrent for a file of that length (and a longer tracker address) was created under
 /// the same name just before, so `<name>.torrent` already exists when the create under test runs.
-fn create_file_case(dir: &std::path::Path, name: &str, len: usize, prior: Option<usize>) -> Option<(&'static str, String)> {
+/// `via_link`: the path handed to create_file is a symbolic link to the file (kept elsewhere under
+/// another name): the torrent describes the file reached through it, under the name of the path.
+fn create_file_case(dir: &std::path::Path, name: &str, len: usize, prior: Option<usize>, via_link: bool) -> Option<(&'static str, String)> {
     core::wipe_dir(dir);
     let sub = dir.join("src");
     std::fs::create_dir_all(&sub).unwrap();
-    let path = sub.join(name);
+    let named = sub.join(name);
+    let path = if via_link {
+        std::fs::create_dir_all(dir.join("store")).unwrap();
+        let target = dir.join("store").join("blob-0001");
+        std::fs::write(&target, b"").unwrap();
+        std::os::unix::fs::symlink(&target, &named).unwrap();
+        target
+    } else {
+        named.clone()
+    };
     if let Some(plen) = prior {
         std::fs::write(&path, vec![0x5au8; plen]).unwrap();
-        match core::catch(|| Metainfo::create_file(&path, &"http://a-much-longer-tracker-address.example:6969/announce/with/a/path".to_string())) {
+        match core::catch(|| Metainfo::create_file(&named, &"http://a-much-longer-tracker-address.example:6969/announce/with/a/path".to_string())) {
             Ok(Ok(())) => {}
             other => return Some(("create_file-fails", format!("prior create, len {}: {:?}", plen, other.map(|r| r.map_err(|e| format!("{:?}", e)))))),
         }
     }
     let content: Vec<u8> = (0..len).map(|i| ((i * 7 + i / 251) % 256) as u8).collect();
     std::fs::write(&path, &content).unwrap();
-    match core::catch(|| Metainfo::create_file(&path, &"http://tracker/announce".to_string())) {
+    match core::catch(|| Metainfo::create_file(&named, &"http://tracker/announce".to_string())) {
         Err(p) => return Some(("create_file-panic", format!("len {}: {}", len, p))),
         Ok(Err(e)) => return Some(("create_file-fails", format!("len {} name {:?}: {:?}", len, name, e))),
         Ok(Ok(())) => {}
@@ -369,10 +380,10 @@ pub fn run(ctx: &Ctx) -> Outcome {
     let sizes = [0usize, 1, 262143, 262144, 262145, 524288, 524289];
     for name in ["f.bin", "with space", "\u{fc}n\u{ef}.dat"] {
         for &len in &sizes {
-            for prior in [None, Some(0usize), Some(len + 2 * 262144 + 1)] {
+            for (prior, via_link) in [(None, false), (Some(0usize), false), (Some(len + 2 * 262144 + 1), false), (None, true)] {
                 created += 1;
-                if let Some((class, summary)) = create_file_case(&dir, name, len, prior) {
-                    ctx.violation(class, format!("{}{}", summary, match prior { Some(p) => format!(" [a torrent for a {}-byte file of the same name existed before]", p), None => String::new() }), json!({"kind": "create", "name": name, "len": len, "prior": prior}));
+                if let Some((class, summary)) = create_file_case(&dir, name, len, prior, via_link) {
+                    ctx.violation(class, format!("{}{}{}", summary, match prior { Some(p) => format!(" [a torrent for a {}-byte file of the same name existed before]", p), None => String::new() }, if via_link { " [the path given is a symbolic link to the file]" } else { "" }), json!({"kind": "create", "name": name, "len": len, "prior": prior, "via_link": via_link}));
                 }
             }
         }
@@ -383,7 +394,7 @@ pub fn run(ctx: &Ctx) -> Outcome {
     o.set("damaged_documents", json!(damaged));
     o.set("damaged_documents_accepted", json!(damaged_accepted));
     o.set("distinct_nontrivial", json!(accepted + created));
-    o.set("rule", json!(format!("(a) every string over the C16 alphabet of length 0..={} through Metainfo::from_bencode (totality); (b) grammar documents: piece length x pieces x length x files (0..{} entries incl. malformed ones) in full product, announce/name/extra-key variants over a reduced layout alphabet, all distinct after dedup; on success fields are compared with the harness's reading and tracker_url/pieces_num/piece(i)/piece_length(i)/total_length/info_hash/file_piece_ranges are called under catch_unwind; (b2) every proper prefix and every single-byte deletion of every accepted grammar document, same obligations; (c) create_file for 7 boundary sizes x 3 names x (fresh directory | after a create of a 0-byte file of the same name | after a create of a file two chunks longer with a longer tracker address). Non-trivial = grammar documents accepted by from_bencode plus create_file cases.", max_len, if ctx.tier == core::Tier::Thorough { 3 } else { 2 })));
+    o.set("rule", json!(format!("(a) every string over the C16 alphabet of length 0..={} through Metainfo::from_bencode (totality); (b) grammar documents: piece length x pieces x length x files (0..{} entries incl. malformed ones) in full product, announce/name/extra-key variants over a reduced layout alphabet, all distinct after dedup; on success fields are compared with the harness's reading and tracker_url/pieces_num/piece(i)/piece_length(i)/total_length/info_hash/file_piece_ranges are called under catch_unwind; (b2) every proper prefix and every single-byte deletion of every accepted grammar document, same obligations; (c) create_file for 7 boundary sizes x 3 names x (fresh directory | after a create of a 0-byte file of the same name | after a create of a file two chunks longer with a longer tracker address | the path given is a symbolic link to the file). Non-trivial = grammar documents accepted by from_bencode plus create_file cases.", max_len, if ctx.tier == core::Tier::Thorough { 3 } else { 2 })));
     o.set("sigma_strings", json!(sigma));
     o.set("grammar_documents", json!(docs.len()));
     o.set("grammar_accepted", json!(accepted));
@@ -403,7 +414,7 @@ pub fn replay(_ctx: &Ctx, r: &Value) -> i32 {
     }
     if r["kind"] == "create" {
         let dir = core::private_cwd("c17", "w");
-        let res = create_file_case(&dir, r["name"].as_str().unwrap(), r["len"].as_u64().unwrap() as usize, r["prior"].as_u64().map(|x| x as usize));
+        let res = create_file_case(&dir, r["name"].as_str().unwrap(), r["len"].as_u64().unwrap() as usize, r["prior"].as_u64().map(|x| x as usize), r["via_link"].as_bool().unwrap_or(false));
         println!("{:?}", res);
         return if res.is_some() { 1 } else { 0 };
     }
